@@ -23,23 +23,30 @@ OBLIGATIONS = [
     "NanoVerif.C13.fill_correct",
     "NanoVerif.C13.maxAlg_laws",
     "NanoVerif.C13.radial_applyTransform_sound",
+    "NanoVerif.C13.radial_split_sound",
+    "NanoVerif.C13.decOK_trivial",
 ]
 DESIGN_REF = "DESIGN.md §5 C13"
-LEVEL_TEXT = ("Proof of the recursive walk for the solid/linear subset + per-step theorems + sampling for the rest. Proved in Lean: "
-              "`colr_to_svg_preserves` — for EVERY paint graph built from PaintColrLayers, transform paints, SRC_IN/black group composites and "
-              "PaintGlyphs whose fill is solid or a linear gradient under any chain of transforms (any depth, any number of layers), the elements "
-              "`_colr_v1_paint_to_svg` emits show at V x what the COLR graph shows at x, for every pixel algebra satisfying the laws of source-over "
-              "(structural induction over the graph, mutual with layer lists: `toSvg_correct`, `fill_correct`, `pathTr_inv`, flattening of nested "
-              "layers by associativity). The Lean walk `toSvg` is tied to the real function: generated graphs of that subset are compiled with "
-              "fontTools, converted by the real colr_to_svg, and the emitted element sequence/nesting, glyph drawn, `transform` attribute and fill "
-              "(palette colour / gradient parameter at probe points) are compared with the model's output. Per-step theorems: the font->viewBox map "
-              "inverts the C01 placement; V^-1;T;V places every outline point at V(T p); nested transforms compose as outer@inner; issue 334 (gradient "
-              "not transformed twice); three-point -> two-point linear gradient (C02.3); radial uniform/residual split (C16). NOT proved: radial "
-              "gradients and PaintColrGlyph inside the recursive theorem. Those, and everything else, are explored on paint graphs GENERATED over the "
-              "property's grammar (ColrLayers, Solid, Linear incl. rotated p2, "
-              "Radial r0>0 c0!=c1, Glyph over simple and composite glyphs, ColrGlyph, Transform/Translate/Scale*/Rotate*/Skew*, SRC_IN-black composite; "
-              "depth <= 6; extend modes; one or two palettes; several viewBoxes), compiled with fontTools colorLib into COLRv1/COLRv0 fonts, converted "
-              "by the real colr_to_svg, and sampled against the COLR graph with the reference renderer. Unsupported formats must raise or warn.")
+LEVEL_TEXT = ("Proof of the recursive walk for the whole supported grammar + per-step theorems + sampling. Proved in Lean: "
+              "`colr_to_svg_preserves` — for EVERY paint graph built from PaintColrLayers, transform paints, SRC_IN/black group composites, "
+              "PaintColrGlyph references (to any depth, under any accumulated transform; the referenced paint is carried by the node, paint graphs "
+              "being acyclic) and PaintGlyphs whose fill is solid, a linear gradient or a radial gradient under any chain of transforms (any depth, "
+              "any number of layers), the elements `_colr_v1_paint_to_svg` emits show at V x what the COLR graph shows at x, for every pixel algebra "
+              "satisfying the laws of source-over and every similarity/remainder split of a radial gradient's transform satisfying `DecOK` "
+              "(structural induction over the graph, mutual with layer lists: `toSvg_correct`, `fill_correct`, `pathTr_inv`, `radial_split_sound`, "
+              "flattening of nested layers by associativity; `decOK_trivial` shows the hypothesis is satisfiable). The Lean walk `toSvg` is tied to "
+              "the real function: generated graphs (solid/linear fills, references to one or two further colour glyphs) are compiled with fontTools, "
+              "converted by the real colr_to_svg, and the emitted element sequence/nesting (<path>, <g opacity>, <g transform>), glyph drawn, "
+              "`transform` attribute and fill (palette colour / gradient parameter at probe points) are compared with the model's output. Per-step "
+              "theorems: the font->viewBox map inverts the C01 placement; V^-1;T;V places every outline point at V(T p); nested transforms compose "
+              "as outer@inner; issue 334 (gradient not transformed twice); three-point -> two-point linear gradient (C02.3); the exact-arithmetic "
+              "part of the radial split (C16 decomposeUniform_exact). NOT proved: that the real split (hypot, round(9)) satisfies DecOK exactly — it "
+              "does up to float rounding, compared numerically (C16); extend modes and colour lines are abstract. Everything is also explored on "
+              "paint graphs GENERATED over the property's grammar (ColrLayers, Solid, Linear incl. rotated p2, "
+              "Radial r0>0 c0!=c1, Glyph over simple and composite glyphs, ColrGlyph incl. under transforms, Transform/Translate/Scale*/Rotate*/Skew*, "
+              "SRC_IN-black composite; depth <= 6; extend modes; one or two palettes; several viewBoxes), compiled with fontTools colorLib into "
+              "COLRv1/COLRv0 fonts, converted by the real colr_to_svg, and sampled against the COLR graph with the reference renderer. Unsupported "
+              "formats must raise or warn.")
 LEVEL_NOTE = "Trusted: Lean kernel; render.py transcription of COLRv1 and SVG 1.1; fontTools colorLib as compiler of the test fonts."
 TECHNIQUE = "Lean 4 proof of the per-step lemmas + reference-renderer sampling of real colr_to_svg output on generated paint graphs"
 ASSUMPTIONS = []
@@ -272,10 +279,12 @@ def check_font(ctx, res, font, desc, two_palettes, case_id):
 # Tie K for Model/ColrSvg.lean (`toSvg`): real `_colr_v1_paint_to_svg` vs the Lean walk on the same paint graph
 # ------------------------------------------------------------------------------------------
 
-def gen_subset_paint(rng, depth, npal):
-    """paint graphs of the subset the recursive theorem covers: layers, transform paints, src_in/black composite, PaintGlyph with a solid
-    or LINEAR fill possibly under transforms"""
+def gen_subset_paint(rng, depth, npal, ref=None):
+    """paint graphs of the subset the recursive theorem covers: layers, transform paints, src_in/black composite, PaintColrGlyph references
+    (`ref` = name of a base glyph that may be referenced), PaintGlyph with a solid or LINEAR fill possibly under transforms"""
     r = rng.random()
+    if ref and depth >= 2 and r < 0.2:
+        return {"Format": 11, "Glyph": ref}
     if depth <= 1 or r < 0.3:
         if rng.random() < 0.5:
             fill = {"Format": 2, "PaletteIndex": rng.randrange(npal), "Alpha": rng.choice([1.0, 0.5, 0.25])}
@@ -290,10 +299,10 @@ def gen_subset_paint(rng, depth, npal):
             fill = gen_transform_wrap(rng, fill)
         return {"Format": 10, "Glyph": rng.choice(["sq", "tri", "big"]), "Paint": fill}
     if r < 0.55:
-        return {"Format": 1, "Layers": [gen_subset_paint(rng, depth - 1, npal) for _ in range(rng.randint(1, 3))]}
+        return {"Format": 1, "Layers": [gen_subset_paint(rng, depth - 1, npal, ref) for _ in range(rng.randint(1, 3))]}
     if r < 0.85:
-        return gen_transform_wrap(rng, gen_subset_paint(rng, depth - 1, npal))
-    return {"Format": 32, "CompositeMode": "src_in", "SourcePaint": gen_subset_paint(rng, depth - 1, npal),
+        return gen_transform_wrap(rng, gen_subset_paint(rng, depth - 1, npal, ref))
+    return {"Format": 32, "CompositeMode": "src_in", "SourcePaint": gen_subset_paint(rng, depth - 1, npal, ref),
             "BackdropPaint": {"Format": 2, "PaletteIndex": 0, "Alpha": rng.choice([0.5, 0.25, 0.75])}}
 
 
@@ -315,6 +324,9 @@ def ot_to_cp(font, p):
         return {"k": "layers", "ps": [ot_to_cp(font, q) for q in ll[p.FirstLayerIndex:p.FirstLayerIndex + p.NumLayers]]}
     if f == 32:
         return {"k": "group", "alpha": fr(F(p.BackdropPaint.Alpha)), "child": ot_to_cp(font, p.SourcePaint)}
+    if f == 11:
+        rec = next(r for r in font["COLR"].table.BaseGlyphList.BaseGlyphPaintRecord if r.BaseGlyph == p.Glyph)
+        return {"k": "ref", "child": ot_to_cp(font, rec.Paint)}
     if is_transform(f):
         m = Paint.from_ot(p).gettransform()
         return {"k": "transform", "m": [fr(F(v)) for v in m], "child": ot_to_cp(font, p.Paint)}
@@ -355,6 +367,8 @@ def real_svg_structure(root, V, font):
                 else:
                     rec_["fill"] = {"k": "solid", "color": fill, "opacity": float(ch.get("opacity", 1))}
                 out.append(rec_)
+            elif tag == "g" and ch.get("transform"):
+                out.append({"k": "gt", "tr": tuple(Affine2D.fromstring(ch.get("transform"))), "kids": rec(ch), "opacity": ch.get("opacity")})
             elif tag == "g":
                 out.append({"k": "g", "opacity": float(ch.get("opacity", 1)), "kids": rec(ch)})
         return out
@@ -368,6 +382,16 @@ def compare_structure(real, model, palette, pts):
     for r, m in zip(real, model):
         if r["k"] != m["k"]:
             return f"element kind {r['k']} vs {m['k']}"
+        if r["k"] == "gt":
+            mt = [float(F(v)) for v in m["tr"]]
+            if r.get("opacity") is not None:
+                return "a <g transform> that also carries an opacity"
+            if any(abs(a - b) > 2e-3 * max(1.0, abs(b)) for a, b in zip(r["tr"], mt)):
+                return f"<g> transform attribute {r['tr']} vs model {mt}"
+            d = compare_structure(r["kids"], m["kids"], palette, pts)
+            if d:
+                return d
+            continue
         if r["k"] == "g":
             if abs(r["opacity"] - float(F(m["opacity"]))) > 2e-3:
                 return "group opacity"
@@ -423,7 +447,12 @@ def suite_tosvg_model(ctx, res, n):
     ops, meta = [], []
     for k in range(n):
         font = build_base_font()
-        glyphs = {"A": gen_subset_paint(rng, rng.randint(1, 5), len(PALETTE0))}
+        glyphs = {"A": gen_subset_paint(rng, rng.randint(1, 5), len(PALETTE0), ref="B" if k % 2 else None)}
+        if "'Glyph': 'B'" in repr(glyphs["A"]):
+            glyphs["B"] = gen_subset_paint(rng, rng.randint(1, 3), len(PALETTE0), ref="C" if k % 4 == 1 else None)
+            if "'Glyph': 'C'" in repr(glyphs["B"]):
+                glyphs["C"] = gen_subset_paint(rng, rng.randint(1, 2), len(PALETTE0))
+            res.stat("tosvg:with-colrglyph-reference")
         try:
             font["COLR"] = builder.buildCOLR(glyphs, version=1)
         except Exception:  # noqa  (value not representable in the chosen paint format)
